@@ -240,3 +240,8 @@ Proof.
   rewrite (tbe_model_spec ref boots e c D Hin P NE), (tbe_model_spec ref boots' e c D' Hin P NE').
   apply tbe_spec_bips. exact F.
 Qed.
+
+Theorem specs_bips : forall X A boots boots',
+    Forall2 (same_bips X) boots boots' ->
+    fbp_spec X A boots = fbp_spec X A boots' /\ tbe_spec X A boots = tbe_spec X A boots'.
+Proof. intros X A boots boots' F. split; [apply fbp_spec_bips|apply tbe_spec_bips]; exact F. Qed.
